@@ -43,20 +43,24 @@ pub fn histories() -> Vec<History> {
         History { template: "two-outputs", prefix: vec![vec![]], last_edits: vec![EditOp::Variant(1)], j: 1 },
         // h4: new discovered dependency gets a path record in the same build
         History { template: "depfile-chain", prefix: vec![vec![]], last_edits: vec![EditOp::Reports("obj".into(), vec!["hdr.h".into(), "hdr2.h".into()])], j: 1 },
+        // h6: a log longer than the reader's 8 KiB buffer; the crashing build
+        // appends six ~210-byte path records and a build record across the
+        // 8192-byte mark
+        History { template: "wide-headers", prefix: vec![vec![]], last_edits: vec![EditOp::Reports("obj".into(), eng_hist::wide_headers(42))], j: 1 },
         // h5: three builds, the log has superseded records
         History { template: "diamond", prefix: vec![vec![], vec![EditOp::Touch("a.in".into())]], last_edits: vec![EditOp::Touch("b.in".into()), EditOp::Touch("c.in".into())], j: 2 },
     ]
 }
 
-struct WriteInfo {
-    len: usize,
+pub struct WriteInfo {
+    pub len: usize,
     /// Index of the last write issued for the same finished command.
     group_last: usize,
     /// Command whose completion caused this write (None: log creation).
     cmd: Option<String>,
 }
 
-fn writes_of(trace: &[Event]) -> Vec<WriteInfo> {
+pub fn writes_of(trace: &[Event]) -> Vec<WriteInfo> {
     let mut out: Vec<WriteInfo> = Vec::new();
     let mut cur_cmd: Option<String> = None;
     let mut group_start = 0usize;
@@ -96,7 +100,7 @@ fn writes_of(trace: &[Event]) -> Vec<WriteInfo> {
 /// After a crash at write `i` persisting `k` bytes: the model forgets the
 /// record of the command whose completion was being logged, unless its
 /// record (the last write of the group) was persisted completely.
-fn correct_model(sim: &mut Sim, writes: &[WriteInfo], i: usize, k: usize) {
+pub fn correct_model(sim: &mut Sim, writes: &[WriteInfo], i: usize, k: usize) {
     let w = &writes[i];
     if let Some(cmd) = &w.cmd {
         let complete = i == w.group_last && k >= w.len;
